@@ -211,6 +211,10 @@ def make_observe(g, m, cfg):
         # caller-chosen tolerances: the table must be converged to what was asked
         op["kw"]["vtol"] = 10.0 ** R.randint(-8, -3)
         op["kw"]["itol"] = 10.0 ** R.randint(-8, -3)
+    if cfg["focus"] == "C06" and R.chance(0.12):
+        # a small iteration budget: the call either raises RuntimeError or every
+        # phase of the returned table is converged
+        op["kw"]["maxiter"] = R.pick([1, 2, 3, 5, 10, 20])
     if cfg["focus"] == "C19":
         op["render"] = [g.op_analysis_of(m, R.pick(["make_diag", "make_hdiag"])) for _ in range(R.randint(1, 2))]
         for rop in op["render"]:
